@@ -89,28 +89,12 @@ ExtractionKeepsAnalysis(ord, c) ==
 (*                          operands                                       *)
 (* A schema value is [ord |-> list of identifiers, c |-> records].         *)
 (***************************************************************************)
-AliasesOf(c) == {c[u].alias : u \in DOMAIN c}
 UidOf(c, a) == CHOOSE u \in DOMAIN c : c[u].alias = a
 IsBaseSetKind(k) == k \in {"base", "constant"}
 IsBaseNotionKind(k) == k \in {"base", "constant", "structured"}
 IsRSObjectKind(k) == k \in {"base", "constant", "structured", "term"}
 
-\* ---- merge
-RECURSIVE MergeIns(_, _, _, _, _, _)
-MergeIns(i, S2, ord, c, fresh, acc) ==
-  IF i > Len(S2.ord) THEN [ord |-> ord, c |-> c, tr |-> acc.tr, names |-> acc.names]
-  ELSE LET u == S2.ord[i]  r == S2.c[u]
-           taken == AliasesOf(c)
-           clash == u \in DOMAIN c
-           nu == IF clash THEN Head(fresh) ELSE u
-           na == IF NeedNameChange(r.alias, r.kind, taken) THEN NewName(r.kind, taken) ELSE r.alias
-       IN MergeIns(i + 1, S2, InsertAtPos(ord, InsPos(ord, c, r.kind), nu), (nu :> [r EXCEPT !.alias = na]) @@ c,
-                   IF clash THEN Tail(fresh) ELSE fresh, [tr |-> (u :> nu) @@ acc.tr, names |-> (r.alias :> na) @@ acc.names])
-MergeSchemas(S1, S2, fresh) ==
-  LET r == MergeIns(1, S2, S1.ord, S1.c, fresh, [tr |-> <<>>, names |-> <<>>])
-      map == [a \in {x \in DOMAIN r.names : r.names[x] # x} |-> r.names[a]]
-      inserted == {r.tr[u] : u \in DOMAIN S2.c}
-  IN [ord |-> r.ord, c |-> [u \in DOMAIN r.c |-> IF u \in inserted THEN RenRec(r.c[u], map) ELSE r.c[u]], tr |-> r.tr]
+\* ---- merge: MergeIns / MergeSchemas are defined in Schema.tla (the bulk insertion of RSForm uses them too)
 
 \* ---- equation table E : key identifier -> value identifier (the key is removed, the value stays)
 TransDeps(c, v) == Basis(c, Deps(c, v))            \* everything v's definition depends on, transitively
